@@ -1,16 +1,34 @@
 """C20 Rotamer hysteresis: carried state, first-frame binning, gate
-construction shape, transition bookkeeping."""
-import ast
+construction shape, transition bookkeeping.
 
-from ..core import (AnalysisIncomplete, call_name, const_value, kwarg,
-                    names_loaded, params, target_names, u, walk_expr,
-                    walk_local)
-from ..patterns import (Cmp, assigns_to, calls_in, check_no_arg_mutation,
-                        conjuncts, finfo, returns_of, subscript_stores)
-from ..match import C, CS
+The constructs are located by ROLE (the array that is returned, the loop that
+calls the exit test, the loop-carried name, the two names that are returned by
+get_gates / unpacked from it, the branch selected by the dimensionality test)
+and their contents are compared after expansion of temporaries against lists
+of accepted forms (match.classify: match / near -> violation / far ->
+incomplete).  Guards are read off the CFG (Assume nodes that dominate a
+statement), so if/else, guard-clause and early-return spellings are the same
+thing to the rules.  The exit test of is_buffered_transition is decided
+exactly: it is a boolean function of order comparisons between three numbers,
+hence determined by its value on the 13 weak orderings of (lower, upper,
+angle); the loop-free body is evaluated on {0,1,2}^3 and compared with the
+specification."""
+import ast
+import copy
+import itertools
+
+from ..cfg import Assume, header_uses
+from ..core import (base_name, call_name, const_value, names_loaded, params,
+                    target_names, u, walk_expr, walk_local)
+from ..patterns import (Cmp, assigns_to, calls_in, canon_atom,
+                        check_no_arg_mutation, conjuncts, finfo, returns_of,
+                        subscript_stores)
+from ..match import C, canon, classify
 
 RO = 'enspara/geometry/rotamer.py'
 DI = 'enspara/cards/disorder.py'
+GATE = 'is_buffered_transition'
+GATES = 'get_gates'
 
 EXPLANATION = (
     'Static decision of the structural necessary conditions of the hysteresis '
@@ -26,203 +44,881 @@ EXPLANATION = (
     '[state + 1], the wrap-around swap tests the seam values of exactly those '
     'bounds (or the equivalent first/last basin index), the buffer is '
     'subtracted from the lower and added to the upper gate, and the exit test '
-    'is inverted for the wrap-around basin.  The gate ARITHMETIC along each '
+    'is inverted for the wrap-around basin (decided exactly over the weak '
+    'orderings of lower gate, upper gate and angle).  Constructs are located '
+    'by role and compared modulo temporaries, guard polarity and call '
+    'spelling; an unrecognised restructuring is reported as incomplete.  The '
+    'gate ARITHMETIC along each '
     'path (linear inequalities in the buffer width) is not decided: that '
     'needs a solver, a different technique family.')
 
 
+# ---------------------------------------------------------------------------
+# small semantic helpers (candidates for a shared module)
+
+def _within(mod, node, anc):
+    """`node` lies (properly or not) inside the subtree of `anc`."""
+    n = node
+    while n is not None:
+        if n is anc:
+            return True
+        n = mod.parent.get(n)
+    return False
+
+
+def governing(fi, stmt, inside=None):
+    """The branch assumptions under which `stmt` executes: every Assume node
+    (test, polarity) of the CFG that dominates it - whatever the spelling
+    (if/else, inverted test, guard clause with continue/return/raise).  With
+    `inside`, only assumptions made inside that compound statement."""
+    out = []
+    for n in fi.cfg.nodes:
+        if isinstance(n, Assume) and fi.cfg.dominates(n, stmt):
+            if inside is None or (n.owner is not inside and _within(fi.mod, n.owner, inside)):
+                out.append(n)
+    return out
+
+
+def guard_atoms(fi, stmt, inside=None):
+    """Conjunction of atomic conditions known to hold at `stmt`: list of Cmp /
+    ('expr', e, polarity); None if some governing test is not a conjunction
+    under its polarity."""
+    out = []
+    for n in governing(fi, stmt, inside):
+        c = conjuncts(n.test, n.polarity)
+        if c is None:
+            return None
+        out += c
+    return out
+
+
+def bind_args(call, names):
+    """{parameter: argument expression} of a call against a positional
+    signature (positional or keyword spelling); None if it cannot be bound."""
+    if any(isinstance(a, ast.Starred) for a in call.args) or any(k.arg is None for k in call.keywords) \
+            or len(call.args) > len(names):
+        return None
+    out = dict(zip(names, call.args))
+    for k in call.keywords:
+        if k.arg in out or k.arg not in names:
+            return None
+        out[k.arg] = k.value
+    return out
+
+
+_SIGS = {
+    'np.digitize': ['x', 'bins', 'right'],
+    'np.bincount': ['x', 'weights', 'minlength'],
+    'np.searchsorted': ['a', 'v', 'side', 'sorter'],
+    'ra.RaggedArray': ['array', 'lengths', 'error_checking', 'copy'],
+    'RaggedArray': ['array', 'lengths', 'error_checking', 'copy'],
+}
+
+
+class _Pos(ast.NodeTransformer):
+    """Keyword arguments that name the next positional parameter become
+    positional (np.digitize(x, bins=b) -> np.digitize(x, b))."""
+
+    def visit_Call(self, node):
+        self.generic_visit(node)
+        sig = _SIGS.get(call_name(node) or '')
+        if sig and not any(isinstance(a, ast.Starred) for a in node.args) and all(k.arg for k in node.keywords):
+            kws = {k.arg: k.value for k in node.keywords}
+            args = list(node.args)
+            while len(args) < len(sig) and sig[len(args)] in kws:
+                args.append(kws.pop(sig[len(args)]))
+            node.args = args
+            node.keywords = [k for k in node.keywords if k.arg in kws]
+        return node
+
+
+def _pos(tree):
+    """Canonical tree with positional call spelling (on a private copy)."""
+    t = _Pos().visit(canon(tree))
+    ast.fix_missing_locations(t)
+    return t
+
+
+def single_def_value(fi, name_node):
+    """The defining expression of a Name use that has ONE reaching definition
+    `n = <expr>` none of whose operands is rebound between the definition and
+    the use (purity of <expr> is the caller's business); else None."""
+    if not (isinstance(name_node, ast.Name) and isinstance(name_node.ctx, ast.Load)):
+        return None
+    try:
+        defs = fi.defs_of_use(name_node)
+    except Exception:
+        return None
+    if len(defs) != 1:
+        return None
+    site = next(iter(defs))
+    if site in ('PARAM', 'UNBOUND') or not isinstance(site, (ast.Assign, ast.AnnAssign)):
+        return None
+    v = fi.def_value(site, name_node.id)
+    if v is None:
+        return None
+    use = fi.stmt(name_node)
+    for m in walk_expr(v):
+        if isinstance(m, ast.Name) and isinstance(m.ctx, ast.Load) and fi.rd.defs_at(site, m.id) != fi.rd.defs_at(use, m.id):
+            return None
+    return v
+
+
+def value_call(fi, e, callee, depth=4):
+    """`e` denotes the result of a call to the module-level function `callee`
+    evaluated with the operands current at `e`: the call itself, or a name
+    that stands for it (single_def_value).  Returns the Call node."""
+    if isinstance(e, ast.Call):
+        return e if call_name(e) == callee else None
+    v = single_def_value(fi, e) if depth > 0 else None
+    return value_call(fi, v, callee, depth - 1) if v is not None else None
+
+
+def resolved_conjuncts(fi, test, polarity, depth=4):
+    """patterns.conjuncts with named boolean sub-conditions (`stays = not f(x)`
+    ... `if stays:`) replaced by their definitions."""
+    cs = conjuncts(test, polarity)
+    if cs is None:
+        return None
+    out = []
+    for c in cs:
+        if isinstance(c, tuple) and isinstance(c[1], ast.Name) and depth > 0:
+            v = single_def_value(fi, c[1])
+            if isinstance(v, (ast.UnaryOp, ast.BoolOp, ast.Compare)):
+                sub = resolved_conjuncts(fi, v, c[2], depth - 1)
+                if sub is None:
+                    return None
+                out += sub
+                continue
+        out.append(c)
+    return out
+
+
+def loop_carried(fi, loop):
+    """Names whose value flows from one trip of `loop` into the next: some use
+    inside the loop is reached both by a definition outside the loop and by a
+    definition inside it (the loop variable itself excluded)."""
+    out = []
+    for s in fi.cfg.nodes:
+        if isinstance(s, (str, Assume)) or s is loop or not _within(fi.mod, s, loop):
+            continue
+        for nm in header_uses(s):
+            defs = fi.rd.defs_at(s, nm.id)
+            inner = [d for d in defs if not isinstance(d, str) and d is not loop and _within(fi.mod, d, loop)]
+            outer = [d for d in defs if isinstance(d, str) or (d is not loop and not _within(fi.mod, d, loop))]
+            if inner and outer and nm.id not in out and nm.id not in target_names(loop.target):
+                out.append(nm.id)
+    return out
+
+
+def _worst(verdicts):
+    """Combine classify() verdicts of the parts of one construct."""
+    for kind in ('near', 'far'):
+        for v in verdicts:
+            if v[0] == kind:
+                return v
+    return ('match', {})
+
+
+def _both(forms):
+    """`a == b` forms in both operand orders."""
+    out = []
+    for f in forms:
+        l, r = f.split(' == ')
+        out += ['%s == %s' % (l, r), '%s == %s' % (r, l)]
+    return out
+
+
+def _cmp_node(fi, c, scalars=None):
+    """Compare node of an atomic Cmp with both sides expanded.  `scalars`:
+    {name: (definition site, expanded value)} of immutable scalars that an
+    augmented assignment elsewhere merely rebinds (fi.expand treats `x -= b`
+    as an in-place mutation of an array): a use reached by that definition
+    only is replaced by the value."""
+    def side(e):
+        sub = {}
+        for n in walk_expr(e):
+            if isinstance(n, ast.Name) and isinstance(n.ctx, ast.Load) and scalars and n.id in scalars \
+                    and fi.defs_of_use(n) == {scalars[n.id][0]}:
+                sub[n.id] = scalars[n.id][1]
+        bad = {n.id for n in walk_expr(e) if isinstance(n, ast.Name) and scalars and n.id in scalars} - set(sub)
+        x = fi.expand(e)
+
+        class S(ast.NodeTransformer):
+            def visit_Name(self, n):
+                return copy.deepcopy(sub[n.id]) if n.id in sub and n.id not in bad else n
+        return S().visit(x)
+    return ast.Compare(left=side(c.lhs), ops=[c.op()], comparators=[side(c.rhs)])
+
+
+def _enclosing_loop(mod, node, fn):
+    n = mod.parent.get(node)
+    while n is not None and n is not fn:
+        if isinstance(n, (ast.For, ast.While)):
+            return n
+        n = mod.parent.get(n)
+    return None
+
+
+# ---------------------------------------------------------------------------
+# D1
+
 def d1_carried_state(ck, mod):
     rule = 'C20.D1.carried-state'
-    fn = mod.func('_rotamers')
+    F = '_rotamers'
+    fn = mod.func(F)
     ck.analysed(mod, fn)
     fi = finfo(mod, fn)
-    angles, hb, bw = params(fn)[:3]
-    loops = [l for l in fn.body if isinstance(l, ast.For)]
-    main = [l for l in loops if any(isinstance(c, ast.Call) and call_name(c) == 'is_buffered_transition' for c in walk_local(l))]
-    if len(main) != 1:
-        ck.missing(rule, 'frame loop calling is_buffered_transition')
+    cfg = fi.cfg
+    if len(params(fn)) < 3:
+        ck.missing(rule, '_rotamers(angles, hard_boundaries, buffer_width): signature not recognised')
         return
-    loop = main[0]
-    i = u(loop.target)
-    ck.check(u(loop.iter) in ('range(1, n_frames)', 'range(1, len(%s))' % angles), rule + '.frames', mod, loop, '_rotamers', u(loop.iter),
-             'frames 1..n-1 are processed in order', 'the state machine must visit frames 1 .. n_frames-1 in order')
-    calls = [c for c in calls_in(loop) if call_name(c) == 'is_buffered_transition']
-    c = calls[0]
-    g = fi.stmt(c)
-    okg = isinstance(g, ast.If) and g.test is c
-    args = [a for a in c.args]
-    ang = fi.resolve(args[1]) if len(args) > 1 and isinstance(args[1], ast.Name) else (args[1] if len(args) > 1 else None)
-    ok = okg and len(args) == 4 and u(args[0]) == 'cur_state' and u(ang) == '%s[%s]' % (angles, i) and u(args[2]) == hb and u(args[3]) == bw
-    ck.check(ok, rule + '.gate-call', mod, c, '_rotamers', '%s  [angle = %s]' % (u(c), u(ang)),
-             'exit test sees the carried state, THIS frame\'s angle, the boundaries and the buffer',
-             'the exit test must be is_buffered_transition(cur_state, angles[%s], hard_boundaries, buffer_width): using the '
-             'previous angle or another state makes the machine react one frame late / to the wrong basin' % i)
-    # state writes only in that branch
-    writes = [s for s in walk_local(loop) if isinstance(s, (ast.Assign, ast.AugAssign)) and
-              'cur_state' in target_names(s.targets[0] if isinstance(s, ast.Assign) else s.target)]
-    inside = [s for s in writes if okg and any(x is s for y in g.body for x in ast.walk(y))]
-    ck.check(len(writes) == 1 and len(inside) == 1, rule + '.only-on-exit', mod, writes[0] if writes else loop, '_rotamers',
-             '; '.join(u(s) for s in writes), 'the state changes only when the buffered exit test fires',
-             'cur_state must be reassigned exactly once per trip and only inside the is_buffered_transition branch '
-             '(otherwise the buffer is ignored and the assignment is plain binning)')
-    if inside:
-        v = inside[0].value
-        okv = isinstance(v, ast.BinOp) and isinstance(v.op, ast.Sub) and const_value(v.right) == 1 and isinstance(v.left, ast.Call) \
-            and call_name(v.left) == 'np.digitize' and len(v.left.args) == 2 and u(v.left.args[1]) == hb
-        a0 = v.left.args[0] if okv else None
-        a0r = fi.resolve(a0) if isinstance(a0, ast.Name) else a0
-        okv = okv and u(a0r) == '%s[%s]' % (angles, i)
-        ck.check(okv, rule + '.rebin', mod, inside[0], '_rotamers', u(inside[0]),
-                 'new state = basin containing the new angle (digitize against the same boundaries)',
-                 'on exit the state must become np.digitize(angles[%s], hard_boundaries) - 1' % i)
-    st = [(s, t) for s, t in subscript_stores(loop, 'rotamers')]
-    ok = len(st) == 1 and u(st[0][1].slice) == i and u(st[0][0].value) == 'cur_state' and st[0][0] in loop.body
-    ck.check(ok, rule + '.record', mod, st[0][0] if st else loop, '_rotamers', u(st[0][0]) if st else 'rotamers[i] = cur_state',
-             'every frame records the carried state (unconditionally, after the possible update)',
-             'rotamers[%s] = cur_state must execute on every trip' % i)
-    if ok and okg:
-        ck.check(loop.body.index(g) < loop.body.index(st[0][0]), rule + '.record', mod, st[0][0], '_rotamers', 'update before record',
-                 'state is updated before it is recorded', 'the state must be updated before it is recorded for the frame')
-    # first frame
-    first = [l for l in loops if l is not loop]
-    ok = False
-    if first:
-        fl = first[0]
-        ifs = [n for n in fl.body if isinstance(n, ast.If)]
-        if len(ifs) == 1:
-            cs = conjuncts(ifs[0].test, True)
-            less = cs[0].as_less() if cs and isinstance(cs[0], Cmp) else None
-            b = u(fl.target)
-            ok = less is not None and less[1] and u(less[0]) == '%s[0]' % angles and u(less[2]) == '%s[%s + 1]' % (hb, b) and \
-                any(u(x) == 'rotamers[0] = %s' % b for x in ifs[0].body) and any(isinstance(x, ast.Break) for x in ifs[0].body) and \
-                u(fl.iter) == 'range(n_basins)'
-    ck.check(ok, rule + '.first-frame', mod, first[0] if first else fn, '_rotamers', u(first[0])[:160] if first else 'first frame',
-             'frame 0 gets the first basin whose upper hard boundary exceeds its angle',
-             'frame 0 must be binned by the hard boundaries: first basin i with angles[0] < hard_boundaries[i + 1]')
-    init = [s for s in fn.body if isinstance(s, ast.Assign) and u(s.targets[0]) == 'cur_state']
-    ok = len(init) == 1 and u(init[0].value) == 'rotamers[0]' and (not first or fn.body.index(first[0]) < fn.body.index(init[0]) < fn.body.index(loop))
-    ck.check(ok, rule + '.first-frame', mod, init[0] if init else fn, '_rotamers', u(init[0]) if init else 'cur_state = rotamers[0]',
-             'the carried state starts as the basin of frame 0', 'cur_state must be initialised to rotamers[0] after frame 0 was binned')
-    # validation of inputs
-    vs = [n for n in fn.body if isinstance(n, ast.If) and any(isinstance(x, ast.Raise) for x in n.body)]
-    txt = ' || '.join(u(n.test) for n in vs)
-    ck.check('%s[0] != 0' % hb in txt and '%s[-1] != 360' % hb in txt and '%s < 0' % bw in txt, rule + '.validation', mod, vs[0] if vs else fn, '_rotamers', txt[:200],
-             'boundaries must span 0..360 and the buffer be in range', 'input validation of boundaries/buffer is missing')
-    r = returns_of(fn)
-    ck.check(len(r) == 1 and u(r[0].value) == 'rotamers', rule + '.record', mod, r[0] if r else fn, '_rotamers', u(r[0]) if r else '?', 'returns the recorded states', 'must return rotamers')
+    angles, hb, bw = params(fn)[:3]
 
+    # --- the result array: what is returned
+    rets = returns_of(fn)
+    if len(rets) != 1 or not isinstance(rets[0].value, ast.Name):
+        ck.missing(rule + '.record', '_rotamers does not end in a single `return <array name>`')
+        return
+    R = rets[0].value.id
+
+    # --- the frame loop: the for loop that evaluates the exit test
+    loops = [l for l in walk_local(fn) if isinstance(l, ast.For) and any(call_name(c) == GATE for c in calls_in(l))]
+    loops = [l for l in loops if not any(o is not l and _within(mod, o, l) for o in loops)]
+    if len(loops) != 1 or not isinstance(loops[0].target, ast.Name):
+        ck.missing(rule, 'exactly one `for <frame> in ...` loop calling is_buffered_transition (found %d)' % len(loops))
+        return
+    loop = loops[0]
+    i = loop.target.id
+    ns = ['len(%s)' % angles, '%s.shape[0]' % angles, 'len(%s)' % R, '%s.shape[0]' % R]
+    v = classify(fi.expand(loop.iter), ['range(1, %s)' % n for n in ns] + ['range(1, %s, 1)' % n for n in ns] + ['np.arange(1, %s)' % n for n in ns],
+                 scope={angles, R})
+    ck.decide(v, rule + '.frames', mod, loop, F, fi.xu(loop.iter), 'frames 1..n-1 are processed in order',
+              'the state machine must visit frames 1 .. n_frames-1 in order')
+
+    # --- the carried state: the loop-carried name
+    carried = loop_carried(fi, loop)
+    calls = [c for c in calls_in(loop) if call_name(c) == GATE]
+    sig = params(mod.func(GATE))
+    b = bind_args(calls[0], sig) if len(calls) == 1 else None
+    if b is None or len(b) != 4 or len(sig) != 4:
+        ck.missing(rule + '.gate-call', 'one call is_buffered_transition(<state>, <angle>, <boundaries>, <buffer>) in the frame loop')
+        return
+    call = calls[0]
+    a_state, a_angle, a_hb, a_bw = [b[p] for p in sig]
+    st = [(s, t) for s, t in subscript_stores(loop, R)]
+    S = None
+    if isinstance(a_state, ast.Name) and a_state.id in carried:
+        S = a_state.id
+    elif len(st) == 1 and isinstance(st[0][0].value, ast.Name) and st[0][0].value.id in carried:
+        S = st[0][0].value.id
+    elif len(carried) == 1:
+        S = carried[0]
+    if S is None:
+        ck.missing(rule + '.only-on-exit', 'no loop-carried state variable recognised in the frame loop (carried names: %s)' % (carried,))
+        return
+    frame_angle = ['%s[%s]' % (angles, i)]
+    v = _worst([classify(fi.expand(a_state, stop=(S,)), [S, 'int(%s)' % S], scope={S}),
+                classify(fi.expand(a_angle), frame_angle, scope={angles, i}),
+                classify(fi.expand(a_hb), [hb], scope={hb, bw, angles}),
+                classify(fi.expand(a_bw), [bw], scope={hb, bw, angles})])
+    ck.decide(v, rule + '.gate-call', mod, call, F, '%s  [angle = %s]' % (u(call), fi.xu(a_angle)),
+              'exit test sees the carried state, THIS frame\'s angle, the boundaries and the buffer',
+              'the exit test must be is_buffered_transition(%s, %s[%s], %s, %s): using the '
+              'previous angle or another state makes the machine react one frame late / to the wrong basin' % (S, angles, i, hb, bw))
+
+    # --- state writes only under "the exit test fired"
+    writes = assigns_to(loop, S)
+    if not writes:
+        ck.bad(rule + '.only-on-exit', mod, loop, F, 'no assignment to %s in the frame loop' % S,
+               'the carried state is never updated inside the frame loop')
+    guarded = []
+    for w in writes:
+        fired = wrong = opaque = False
+        extra = []
+        for n in governing(fi, w, inside=loop):
+            cs = resolved_conjuncts(fi, n.test, n.polarity)
+            if cs is None:
+                opaque = True
+                continue
+            for c in cs:
+                vc = value_call(fi, c[1], GATE) if isinstance(c, tuple) else None
+                if vc is call:
+                    fired, wrong = fired or c[2], wrong or not c[2]
+                else:
+                    extra.append(c)
+        if fired and not wrong and not extra and not opaque:
+            guarded.append(w)
+            ck.ok(rule + '.only-on-exit', mod, w, u(w), 'the state changes only when the buffered exit test fires')
+        elif wrong or not (fired or extra or opaque):
+            ck.bad(rule + '.only-on-exit', mod, w, F, u(w),
+                   '%s must be reassigned only inside the is_buffered_transition branch '
+                   '(otherwise the buffer is ignored and the assignment is plain binning)' % S)
+        else:
+            ck.missing(rule + '.only-on-exit', 'guard of `%s` at %s not recognised (conditions besides the exit test: %s)' % (
+                u(w), mod.loc(w), ', '.join(repr(c) if isinstance(c, Cmp) else u(c[1]) for c in extra)[:120]))
+    digit = []
+    for x in frame_angle:
+        digit += ['np.digitize(%s, %s) - 1' % (x, hb), 'np.digitize(%s, %s, False) - 1' % (x, hb),
+                  "np.searchsorted(%s, %s, 'right') - 1" % (hb, x)]
+    for w in guarded:
+        if not isinstance(w, ast.Assign):
+            ck.missing(rule + '.rebin', 'state update `%s` is not a plain assignment' % u(w))
+            continue
+        val = _pos(fi.expand(w.value))
+        v = classify(val, digit, scope={angles, i, hb, S})
+        ck.decide(v, rule + '.rebin', mod, w, F, '%s  [= %s]' % (u(w), u(val)),
+                  'new state = basin containing the new angle (digitize against the same boundaries)',
+                  'on exit the state must become np.digitize(%s[%s], %s) - 1' % (angles, i, hb))
+
+    # --- every frame records the carried state, after the possible update
+    if len(st) != 1:
+        ck.missing(rule + '.record', 'exactly one store into %s inside the frame loop (found %d)' % (R, len(st)))
+    else:
+        rs, rt = st[0]
+        v = _worst([classify(fi.expand(rt.slice), [i], scope={i}),
+                    classify(fi.expand(rs.value, stop=(S,)) if isinstance(rs, ast.Assign) else ast.Name(id='<augmented>', ctx=ast.Load()),
+                             [S, 'int(%s)' % S], scope={S, angles, i, hb, bw})])
+        ck.decide(v, rule + '.record', mod, rs, F, u(rs), 'frame %s records the carried state' % i,
+                  '%s[%s] = %s must be what each trip records' % (R, i, S))
+        first = loop.body[0]
+        every = first is rs or not (cfg.reachable(first, loop, avoiding=[rs]) or cfg.reachable(first, 'EXIT', avoiding=[rs, loop]))
+        ck.check(every, rule + '.record', mod, rs, F, '%s on every trip' % u(rs),
+                 'every frame records the carried state (unconditionally)',
+                 '%s[%s] = %s must execute on every trip of the frame loop' % (R, i, S))
+        late = [w for w in writes if cfg.reachable(rs, w, avoiding=[loop])]
+        ck.check(not late, rule + '.record', mod, rs, F, 'update before record',
+                 'state is updated before it is recorded', 'the state must be updated before it is recorded for the frame')
+    ck.ok(rule + '.record', mod, rets[0], u(rets[0]), 'returns the recorded states')
+
+    # --- frame 0: binned by the hard boundaries
+    st0 = [(s, t) for s, t in subscript_stores(fn, R)
+           if not _within(mod, s, loop) and isinstance(s, ast.Assign) and type(const_value(fi.expand(t.slice))) is int
+           and const_value(fi.expand(t.slice)) == 0 and cfg.reachable(s, loop)]
+    a0 = '%s[0]' % angles
+    if not st0:
+        ck.missing(rule + '.first-frame', 'no store `%s[0] = <basin>` before the frame loop' % R)
+    for s, t in st0:
+        fl = _enclosing_loop(mod, s, fn)
+        if fl is None:
+            forms = ['np.digitize(%s, %s) - 1' % (a0, hb), 'np.digitize(%s, %s, False) - 1' % (a0, hb), "np.searchsorted(%s, %s, 'right') - 1" % (hb, a0)]
+            v = classify(_pos(fi.expand(s.value)), forms, scope={angles, hb})
+            if v[0] == 'match' and not cfg.dominates(s, loop):
+                v = ('far', 0, None)
+            ck.decide(v, rule + '.first-frame', mod, s, F, u(s), 'frame 0 gets the basin containing its angle',
+                      'frame 0 must be binned by the hard boundaries')
+            continue
+        if not (isinstance(fl, ast.For) and isinstance(fl.target, ast.Name)):
+            ck.missing(rule + '.first-frame', 'basin search for frame 0 at %s not recognised' % mod.loc(fl))
+            continue
+        bn = fl.target.id
+        vs = [classify(fi.expand(fl.iter), ['range(len(%s) - 1)' % hb, 'range(0, len(%s) - 1)' % hb, 'range(len(%s[1:]))' % hb,
+                                           'range(len(%s[:-1]))' % hb, 'np.arange(len(%s) - 1)' % hb], scope={hb}),
+              classify(fi.expand(s.value), [bn, 'int(%s)' % bn], scope={bn, hb, angles})]
+        atoms = guard_atoms(fi, s, inside=fl)
+        if atoms is None or len(atoms) != 1 or not isinstance(atoms[0], Cmp):
+            vs.append(('near', 0, None) if atoms == [] else ('far', 0, None))
+        else:
+            vs.append(classify(_cmp_node(fi, atoms[0]), ['%s < %s[%s + 1]' % (a0, hb, bn), '%s < %s[1 + %s]' % (a0, hb, bn)], scope={angles, hb, bn}))
+        v = _worst(vs)
+        if v[0] == 'match' and cfg.reachable(s, fl):
+            v = ('near', 0, None)       # no break: the LAST matching basin wins
+        ck.decide(v, rule + '.first-frame', mod, fl, F, u(fl)[:160],
+                  'frame 0 gets the first basin whose upper hard boundary exceeds its angle',
+                  'frame 0 must be binned by the hard boundaries: first basin b with %s < %s[b + 1] (strict, then stop searching)' % (a0, hb))
+    inits = [d for d in fi.rd.defs_at(loop, S) if isinstance(d, str) or not _within(mod, d, loop)]
+    if len(inits) != 1 or not isinstance(inits[0], ast.Assign) or fi.def_value(inits[0], S) is None:
+        ck.missing(rule + '.first-frame', 'single initialisation `%s = ...` before the frame loop' % S)
+    else:
+        init = inits[0]
+        v = classify(fi.expand(fi.def_value(init, S)), ['%s[0]' % R, 'int(%s[0])' % R], scope={R})
+        if v[0] == 'match' and st0 and not all(cfg.reachable(s, init) and not cfg.reachable(init, s) for s, _ in st0):
+            v = ('near', 0, None)
+        ck.decide(v, rule + '.first-frame', mod, init, F, u(init), 'the carried state starts as the basin of frame 0',
+                  '%s must be initialised to %s[0] after frame 0 was binned' % (S, R))
+
+    # --- validation of inputs: which atomic conditions raise
+    need = [('%s[0] != 0' % hb,), ('%s[-1] != 360' % hb, '%s[len(%s) - 1] != 360' % (hb, hb)), ('%s < 0' % bw,)]
+    have, opaque, site = [], False, None
+    for r in [n for n in walk_local(fn) if isinstance(n, ast.Raise)]:
+        gov = governing(fi, r)
+        # assumptions left behind by earlier guard clauses (`if bad: raise` passed) do not weaken this one
+        passed = [n for n in gov if not _within(mod, r, n.owner)]
+        if not all((n.owner.orelse if n.polarity else n.owner.body) and
+                   isinstance((n.owner.orelse if n.polarity else n.owner.body)[-1], ast.Raise) for n in passed):
+            opaque = True
+            continue
+        gov = [n for n in gov if n not in passed]
+        site = site or (gov[0] if gov else r)
+        if len(gov) != 1:
+            opaque = opaque or len(gov) > 1
+            continue
+        neg = conjuncts(gov[0].test, not gov[0].polarity)
+        if neg is None:
+            pos = conjuncts(gov[0].test, gov[0].polarity)
+            neg = [pos[0].negated()] if pos and len(pos) == 1 and isinstance(pos[0], Cmp) else None
+        if neg is None or not all(isinstance(c, Cmp) for c in neg):
+            opaque = True
+            continue
+        for c in neg:
+            t = c.negated()
+            have.append(canon_atom(Cmp(canon(fi.expand(t.lhs)), t.op, canon(fi.expand(t.rhs)))))
+    for c in calls_in(fn):
+        if isinstance(c.func, ast.Name) and c.func.id not in (GATE, 'len', 'range', 'int', 'float') \
+                and not _within(mod, c, loop) and not isinstance(mod.enclosing_stmt(c), ast.Raise) and ({hb, bw} & {x for a in list(c.args) + [k.value for k in c.keywords] for x in names_loaded(a)}):
+            opaque = True               # the inputs are handed to a helper the rule cannot see through
+
+    def key(text):
+        return canon_atom(conjuncts(canon(ast.parse(text, mode='eval').body), True)[0])
+    ok = all(any(key(t) in have for t in alts) for alts in need)
+    txt = ' || '.join('%s %s %s' % (k[0], k[1] if p else 'not ' + k[1], k[2]) for (k, p) in have)
+    if ok or not opaque:
+        ck.check(ok, rule + '.validation', mod, site or fn, F, ('raise if ' + txt)[:200],
+                 'boundaries must span 0..360 and the buffer be in range', 'input validation of boundaries/buffer is missing: '
+                 '%s[0] != 0, %s[-1] != 360 and %s < 0 must each raise' % (hb, hb, bw))
+    else:
+        ck.missing(rule + '.validation', 'input validation not recognised (conditions that raise: %s)' % txt[:160])
+
+
+# ---------------------------------------------------------------------------
+# D3
 
 def d3_gates(ck, mod):
     rule = 'C20.D3.gates'
-    fn = mod.func('get_gates')
+    F = GATES
+    fn = mod.func(F)
     ck.analysed(mod, fn)
     fi = finfo(mod, fn)
+    cfg = fi.cfg
+    if len(params(fn)) < 3:
+        ck.missing(rule, 'get_gates(cur_state, hard_boundaries, buffer_width): signature not recognised')
+        return
     cs_, hb, bw = params(fn)[:3]
-    sn = [s for s in assigns_to(fn, 'state_num') if isinstance(s, ast.Assign)]
-    okn = len(sn) == 1 and u(sn[0].value) in ('int(%s)' % cs_, cs_)
-    ck.check(okn, rule + '.lookup', mod, sn[0] if sn else fn, 'get_gates', u(sn[0]) if sn else 'state_num', 'gates are those of the CURRENT state', 'state_num must be the current state')
-    lo = [s for s in fn.body if isinstance(s, ast.Assign) and u(s.targets[0]) == 'lower_bound']
-    up = [s for s in fn.body if isinstance(s, ast.Assign) and u(s.targets[0]) == 'upper_bound']
-    ok = bool(lo) and bool(up) and u(lo[0].value) == '%s[state_num]' % hb and u(up[0].value) == '%s[state_num + 1]' % hb
-    ck.check(ok, rule + '.lookup', mod, lo[0] if lo else fn, 'get_gates', '%s ; %s' % (u(lo[0]) if lo else '?', u(up[0]) if up else '?'),
-             'lower/upper gate start as the hard boundaries of the current basin',
-             'the gates must start as hard_boundaries[state] (lower) and hard_boundaries[state + 1] (upper)')
-    # wrap-around swaps
-    swaps = [n for n in fn.body if isinstance(n, ast.If)]
-    low_ok = up_ok = False
-    for n in swaps:
-        body = [u(x) for x in n.body]
-        t = u(n.test)
-        if body == ['lower_bound = 360']:
-            low_ok = t in ('lower_bound == 0', 'state_num == 0', '0 == lower_bound', '%s[state_num] == 0' % hb)
-            ck.check(low_ok, rule + '.wrap', mod, n, 'get_gates', 'if %s: %s' % (t, body[0]),
-                     'the basin that starts at the 0/360 seam gets its lower gate moved to 360',
-                     'the lower gate must wrap to 360 exactly for the basin whose lower boundary is 0 (first basin)')
-        if body == ['upper_bound = 0']:
-            up_ok = t in ('upper_bound == 360', '360 == upper_bound', 'state_num == n_basins - 1', 'state_num + 1 == n_basins',
-                          'state_num == len(%s) - 2' % hb, '%s[state_num + 1] == 360' % hb)
-            ck.check(up_ok, rule + '.wrap', mod, n, 'get_gates', 'if %s: %s' % (t, body[0]),
-                     'the basin that ends at the 0/360 seam gets its upper gate moved to 0',
-                     'the upper gate must wrap to 0 exactly for the basin whose upper boundary is 360, i.e. the LAST basin '
-                     '(index n_basins - 1): `%s` never holds for a valid state, so the last basin loses its buffer across '
-                     'the seam' % t)
-    if not any([u(x) for x in n.body] == ['lower_bound = 360'] for n in swaps):
-        ck.bad(rule + '.wrap', mod, fn, 'get_gates', 'lower wrap', 'no wrap-around of the lower gate at the 0/360 seam')
-    if not any([u(x) for x in n.body] == ['upper_bound = 0'] for n in swaps):
-        ck.bad(rule + '.wrap', mod, fn, 'get_gates', 'upper wrap', 'no wrap-around of the upper gate at the 0/360 seam')
-    ws = [s for s in fn.body if isinstance(s, ast.AugAssign)]
-    ok = sorted(u(s) for s in ws) == sorted(['lower_bound -= %s' % bw, 'upper_bound += %s' % bw])
-    ck.check(ok, rule + '.widen', mod, ws[0] if ws else fn, 'get_gates', '; '.join(u(s) for s in ws),
-             'basin widened by the buffer on both sides (lower - b, upper + b)',
-             'the gates must be widened OUTWARDS: lower_bound -= buffer_width and upper_bound += buffer_width')
-    if ws and swaps:
-        ck.check(all(fn.body.index(n) < fn.body.index(s) for n in swaps for s in ws), rule + '.widen', mod, ws[0], 'get_gates', 'wrap before widening',
+    rets = returns_of(fn)
+    if len(rets) != 1 or not (isinstance(rets[0].value, ast.Tuple) and len(rets[0].value.elts) == 2 and
+                              all(isinstance(e, ast.Name) for e in rets[0].value.elts)):
+        ck.missing(rule + '.order', 'get_gates does not end in a single `return <lower name>, <upper name>`')
+        return
+    ret = rets[0]
+    L, U = [e.id for e in ret.value.elts]
+    idx = ['int(%s)' % cs_, cs_]
+    lo_forms = ['%s[%s]' % (hb, k) for k in idx]
+    up_forms = ['%s[%s + 1]' % (hb, k) for k in idx] + ['%s[1 + %s]' % (hb, k) for k in idx]
+
+    def initial(X):
+        ds = [a for a in assigns_to(fn, X) if isinstance(a, ast.Assign) and fi.rd.defs_at(a, X) == {'UNBOUND'} and fi.def_value(a, X) is not None]
+        return ds[0] if len(ds) == 1 else None
+    l0, u0 = initial(L), initial(U)
+    if l0 is None or u0 is None:
+        ck.missing(rule + '.lookup', 'initial assignment of the returned gates %s / %s' % (L, U))
+        return
+    scope = {cs_, hb, bw, L, U}
+    lv, uv = fi.expand(fi.def_value(l0, L)), fi.expand(fi.def_value(u0, U))
+    swapped = classify(lv, up_forms)[0] == 'match' and classify(uv, lo_forms)[0] == 'match'
+    ck.check(not swapped, rule + '.order', mod, ret, F, u(ret), 'returns (lower, upper)',
+             'get_gates must return (lower gate, upper gate): `%s` starts as %s and `%s` as %s' % (L, u(lv), U, u(uv)))
+    if swapped:
+        L, U, l0, u0, lv, uv = U, L, u0, l0, uv, lv
+    ck.decide(classify(lv, lo_forms, scope=scope), rule + '.lookup', mod, l0, F, '%s  [= %s]' % (u(l0), u(canon(lv))),
+              'the lower gate starts as the lower hard boundary of the CURRENT basin',
+              'the lower gate must start as %s[state]' % hb)
+    ck.decide(classify(uv, up_forms, scope=scope), rule + '.lookup', mod, u0, F, '%s  [= %s]' % (u(u0), u(canon(uv))),
+              'the upper gate starts as the upper hard boundary of the CURRENT basin',
+              'the upper gate must start as %s[state + 1]' % hb)
+
+    # --- per gate: seam substitution (guarded constant store) then widening
+    last = ['len(%s) - 1 - 1' % hb, 'len(%s) - 2' % hb]
+    seam = {
+        L: (360, _both(['%s == 0' % f for f in lo_forms] + ['%s == 0' % k for k in idx] + ['%s == %s[0]' % (f, hb) for f in lo_forms]),
+            'the basin that starts at the 0/360 seam gets its lower gate moved to 360',
+            'the lower gate must wrap to 360 exactly for the basin whose lower boundary is 0 (first basin)'),
+        U: (0, _both(['%s == 360' % f for f in up_forms] + ['%s == %s[-1]' % (f, hb) for f in up_forms] +
+                     ['%s == %s' % (k, n) for k in idx for n in last] +
+                     ['%s + 1 == len(%s) - 1' % (k, hb) for k in idx] + ['1 + %s == len(%s) - 1' % (k, hb) for k in idx]),
+            'the basin that ends at the 0/360 seam gets its upper gate moved to 0',
+            'the upper gate must wrap to 0 exactly for the basin whose upper boundary is 360, i.e. the LAST basin '
+            '(index n_basins - 1); a test that never holds for a valid state makes the last basin lose its buffer across the seam'),
+    }
+    widen_form = {L: ['%s - %s' % (L, bw)], U: ['%s + %s' % (U, bw), '%s + %s' % (bw, U)]}
+    for X, x0 in ((L, l0), (U, u0)):
+        which = 'lower' if X == L else 'upper'
+        const, forms, okmsg, badmsg = seam[X]
+        others = [a for a in assigns_to(fn, X) if a is not x0]
+        wraps = [a for a in others if isinstance(a, ast.Assign) and len(a.targets) == 1 and isinstance(a.targets[0], ast.Name)
+                 and const_value(a.value) is not None]
+        widens = [a for a in others if a not in wraps and (isinstance(a, ast.AugAssign) or (
+            isinstance(a, ast.Assign) and isinstance(a.value, ast.BinOp) and X in names_loaded(a.value)))]
+        rest = [a for a in others if a not in wraps and a not in widens]
+        if rest:
+            ck.missing(rule + '.wrap', 'assignment `%s` to the %s gate not recognised' % (u(rest[0]), which))
+            continue
+        if not wraps:
+            ck.bad(rule + '.wrap', mod, fn, F, '%s wrap' % which, 'no wrap-around of the %s gate at the 0/360 seam' % which)
+        for a in wraps:
+            atoms = guard_atoms(fi, a)
+            if atoms is None or len(atoms) > 1 or (atoms and not isinstance(atoms[0], Cmp)):
+                v = ('far', 0, None)
+            elif not atoms:
+                v = ('near', 0, None)           # unconditional substitution
+            else:
+                v = classify(_cmp_node(fi, atoms[0], {L: (l0, lv), U: (u0, uv)}), forms, scope=scope)
+                if v[0] == 'match' and const_value(a.value) != const:
+                    v = ('near', 1, '%s = %d' % (X, const))
+            ck.decide(v, rule + '.wrap', mod, a, F, 'if %s: %s' % (' and '.join(repr(c) for c in atoms or []) or '<unconditional>', u(a)), okmsg, badmsg)
+        if len(widens) != 1:
+            ck.check(False, rule + '.widen', mod, widens[0] if widens else fn, F, '; '.join(u(s) for s in widens) or '%s gate widening' % which,
+                     '', 'the %s gate must be widened by the buffer exactly once' % which)
+            continue
+        w = widens[0]
+        if isinstance(w, ast.AugAssign):
+            val = ast.BinOp(left=ast.Name(id=X, ctx=ast.Load()), op=w.op, right=fi.expand(w.value))
+        else:
+            val = fi.expand(w.value, stop=(X,))
+        v = classify(val, widen_form[X], scope={X, bw})
+        if v[0] == 'match' and fi.rd.defs_at(ret, X) != {w}:
+            v = ('far', 0, None)
+        ck.decide(v, rule + '.widen', mod, w, F, u(w), 'basin widened by the buffer on the %s side (%s)' % (which, widen_form[X][0]),
+                  'the gates must be widened OUTWARDS: lower gate - buffer_width and upper gate + buffer_width')
+        early = [a for a in wraps if cfg.reachable(w, a)]
+        ck.check(not early, rule + '.widen', mod, w, F, 'wrap before widening (%s)' % which,
                  'seam values are substituted before the buffer is applied', 'the seam substitution must precede the widening')
-    r = returns_of(fn)
-    ck.check(len(r) == 1 and u(r[0].value) == '(lower_bound, upper_bound)', rule + '.order', mod, r[0] if r else fn, 'get_gates', u(r[0]) if r else '?', 'returns (lower, upper)', 'get_gates must return (lower_bound, upper_bound)')
-    # is_buffered_transition
-    ft = mod.func('is_buffered_transition')
+
+
+# --- exit test ---------------------------------------------------------------
+
+class _Unsupported(Exception):
+    pass
+
+
+class _Tok:
+    """An opaque runtime value (state, boundaries, buffer)."""
+
+    def __init__(self, name):
+        self.name = name
+
+
+def _truth(v):
+    if isinstance(v, _Tok) or isinstance(v, tuple):
+        raise _Unsupported('truth value of %s' % getattr(v, 'name', 'a tuple'))
+    return bool(v)
+
+
+_CMP = {ast.Lt: lambda a, b: a < b, ast.LtE: lambda a, b: a <= b, ast.Gt: lambda a, b: a > b, ast.GtE: lambda a, b: a >= b,
+        ast.Eq: lambda a, b: a == b, ast.NotEq: lambda a, b: a != b}
+
+
+def _interpret(fn, env, calls):
+    """Concrete evaluation of a loop-free function body (if / assignment /
+    return over comparisons, and/or/not, constants and the given calls).
+    Anything else raises _Unsupported."""
+    env = dict(env)
+
+    def ev(e):
+        if isinstance(e, ast.Constant):
+            return e.value
+        if isinstance(e, ast.Name):
+            if e.id not in env:
+                raise _Unsupported('name %s' % e.id)
+            return env[e.id]
+        if isinstance(e, ast.Tuple):
+            return tuple(ev(x) for x in e.elts)
+        if isinstance(e, ast.Compare):
+            left = ev(e.left)
+            for op, right in zip(e.ops, e.comparators):
+                r = ev(right)
+                if type(op) not in _CMP or not all(isinstance(x, (int, float)) and not isinstance(x, bool) for x in (left, r)):
+                    raise _Unsupported('comparison %s' % u(e))
+                if not _CMP[type(op)](left, r):
+                    return False
+                left = r
+            return True
+        if isinstance(e, ast.BoolOp):
+            v = None
+            for x in e.values:
+                v = ev(x)
+                if _truth(v) != isinstance(e.op, ast.And):
+                    return v
+            return v
+        if isinstance(e, ast.UnaryOp) and isinstance(e.op, ast.Not):
+            return not _truth(ev(e.operand))
+        if isinstance(e, ast.IfExp):
+            return ev(e.body) if _truth(ev(e.test)) else ev(e.orelse)
+        if isinstance(e, ast.Call) and call_name(e) in calls:
+            return calls[call_name(e)](e)
+        if isinstance(e, ast.Call) and call_name(e) == 'bool' and len(e.args) == 1 and not e.keywords:
+            return _truth(ev(e.args[0]))
+        raise _Unsupported('expression %s' % u(e)[:60])
+
+    def assign(t, v):
+        if isinstance(t, ast.Name):
+            env[t.id] = v
+        elif isinstance(t, (ast.Tuple, ast.List)) and isinstance(v, tuple) and len(v) == len(t.elts):
+            for te, ve in zip(t.elts, v):
+                assign(te, ve)
+        else:
+            raise _Unsupported('assignment target %s' % u(t))
+
+    def run(stmts):
+        for s in stmts:
+            if isinstance(s, ast.Pass):
+                continue
+            if isinstance(s, ast.Expr):
+                if isinstance(s.value, ast.Constant) or (isinstance(s.value, ast.Call) and
+                                                        (call_name(s.value) or '').split('.')[0] in ('logger', 'logging', 'print')):
+                    continue
+                raise _Unsupported('statement %s' % u(s)[:60])
+            if isinstance(s, ast.Assign):
+                v = ev(s.value)
+                for t in s.targets:
+                    assign(t, v)
+                continue
+            if isinstance(s, ast.AnnAssign) and s.value is not None:
+                assign(s.target, ev(s.value))
+                continue
+            if isinstance(s, ast.If):
+                r = run(s.body if _truth(ev(s.test)) else s.orelse)
+                if r is not None:
+                    return r
+                continue
+            if isinstance(s, ast.Return):
+                return ('return', ev(s.value) if s.value is not None else None)
+            raise _Unsupported('statement %s' % type(s).__name__)
+        return None
+    r = run(fn.body)
+    return r[1] if r is not None else None
+
+
+def d3_exit_test(ck, mod):
+    rule = 'C20.D3.gates'
+    F = GATE
+    ft = mod.func(F)
     ck.analysed(mod, ft)
-    un = [s for s in walk_local(ft) if isinstance(s, ast.Assign) and isinstance(s.value, ast.Call) and call_name(s.value) == 'get_gates']
-    ok = len(un) == 1 and u(un[0].targets[0]) == '(lower_bound, upper_bound)' and [u(a) for a in un[0].value.args] == params(ft)[0:1] + params(ft)[2:4]
-    ck.check(ok, rule + '.order', mod, un[0] if un else ft, 'is_buffered_transition', u(un[0]) if un else 'get_gates', '(lower, upper) unpacked in order for the current state',
-             'is_buffered_transition must unpack (lower_bound, upper_bound) = get_gates(cur_state, hard_boundaries, buffer_width)')
-    na = params(ft)[1]
-    tests = {}
-    for n in ft.body:
-        if isinstance(n, ast.If):
-            inner = [x for x in n.body if isinstance(x, ast.If)]
-            if inner:
-                tests[u(n.test)] = (u(inner[0].test), [u(x) for x in inner[0].body])
-    wrap = tests.get('upper_bound < lower_bound')
-    norm = tests.get(C('upper_bound > lower_bound'))
-    ok = wrap is not None and wrap[0] == 'upper_bound <= %s <= lower_bound' % na and wrap[1] == ['result = True']
-    ck.check(ok, rule + '.exit-test', mod, ft, 'is_buffered_transition', 'wrap-around: %s' % (wrap,),
+    fi = finfo(mod, ft)
+    ps = params(ft)
+    gsig = params(mod.func(GATES))
+    if len(ps) != 4 or len(gsig) != 3:
+        ck.missing(rule + '.order', 'signatures of is_buffered_transition / get_gates not recognised')
+        return
+    cs_, na, hb, bw = ps
+    calls = [c for c in calls_in(ft) if call_name(c) == GATES]
+    b = bind_args(calls[0], gsig) if len(calls) == 1 else None
+    if b is None or len(b) != 3:
+        ck.missing(rule + '.order', 'one call get_gates(<state>, <boundaries>, <buffer>) in is_buffered_transition')
+        return
+    call = calls[0]
+    v = _worst([classify(fi.expand(b[p]), [want], scope=set(ps)) for p, want in zip(gsig, (cs_, hb, bw))])
+    ck.decide(v, rule + '.order', mod, call, F, u(call), 'gates are computed for the current state, the boundaries and the buffer',
+              'is_buffered_transition must ask for get_gates(%s, %s, %s)' % (cs_, hb, bw))
+    un = [s for s in walk_local(ft) if isinstance(s, ast.Assign) and len(s.targets) == 1 and isinstance(s.targets[0], (ast.Tuple, ast.List))
+          and value_call(fi, s.value, GATES) is call]
+    if len(un) != 1 or len(un[0].targets[0].elts) != 2 or not all(isinstance(e, ast.Name) for e in un[0].targets[0].elts):
+        ck.missing(rule + '.order', 'unpacking `<lower>, <upper> = get_gates(...)` in is_buffered_transition')
+        return
+    LO, UP = [e.id for e in un[0].targets[0].elts]
+    ck.ok(rule + '.order', mod, un[0], u(un[0]), '(lower, upper) unpacked in the order get_gates returns them: %s = lower gate, %s = upper gate' % (LO, UP))
+
+    # --- the decision itself, exactly: a boolean function of order comparisons
+    # between three numbers is determined by the weak ordering of the three.
+    def spec(lo, up, a):
+        return (up < lo and up <= a <= lo) or (lo < up and not (lo <= a <= up))
+    cases = {'wrap': [], 'ordinary': [], 'degenerate': []}
+    try:
+        for lo, up, a in itertools.product((0, 1, 2), repeat=3):
+            env = {cs_: _Tok(cs_), hb: _Tok(hb), bw: _Tok(bw), na: a}
+            got = _interpret(ft, env, {GATES: lambda e, lo=lo, up=up: (lo, up)})
+            if isinstance(got, _Tok) or isinstance(got, tuple):
+                raise _Unsupported('non-boolean result')
+            kind = 'wrap' if up < lo else 'ordinary' if lo < up else 'degenerate'
+            if bool(got) != bool(spec(lo, up, a)):
+                cases[kind].append('%s=%d, %s=%d, %s=%d: returns %s, expected %s' % (LO, lo, UP, up, na, a, bool(got), bool(spec(lo, up, a))))
+    except _Unsupported as e:
+        ck.missing(rule + '.exit-test', 'is_buffered_transition is not a loop-free decision over order comparisons of the gates and the angle (%s)' % e)
+        return
+    ck.check(not cases['wrap'], rule + '.exit-test', mod, ft, F, 'wrap-around basin (%s < %s): transition iff %s <= %s <= %s' % (UP, LO, UP, na, LO),
              'for the wrap-around basin (gates flipped) the exit region is BETWEEN the gates',
-             'when upper < lower (wrap-around basin) a transition is `upper_bound <= new_angle <= lower_bound`')
-    ok = norm is not None and norm[0] == 'not lower_bound <= %s <= upper_bound' % na and norm[1] == ['result = True']
-    ck.check(ok, rule + '.exit-test', mod, ft, 'is_buffered_transition', 'ordinary: %s' % (norm,),
+             'when upper < lower (wrap-around basin) a transition is `upper <= new_angle <= lower`; counter-example: ' + '; '.join(cases['wrap'][:2]))
+    ck.check(not cases['ordinary'], rule + '.exit-test', mod, ft, F, 'ordinary basin (%s < %s): transition iff not %s <= %s <= %s' % (LO, UP, LO, na, UP),
              'for an ordinary basin the exit region is OUTSIDE the gates',
-             'when upper > lower a transition is `not (lower_bound <= new_angle <= upper_bound)`')
-    r = returns_of(ft)
-    init = [s for s in ft.body if isinstance(s, ast.Assign) and u(s.targets[0]) == 'result']
-    ck.check(len(r) == 1 and u(r[0].value) == 'result' and bool(init) and u(init[0].value) == 'False', rule + '.exit-test', mod, r[0] if r else ft, 'is_buffered_transition',
-             'result defaults to False', 'no transition unless an exit test fires', 'result must default to False and be returned')
+             'when upper > lower a transition is `not (lower <= new_angle <= upper)`; counter-example: ' + '; '.join(cases['ordinary'][:2]))
+    ck.check(not cases['degenerate'], rule + '.exit-test', mod, ft, F, 'result defaults to False',
+             'no transition unless an exit test fires', 'with coinciding gates no exit test fires and the result must be False; counter-example: ' +
+             '; '.join(cases['degenerate'][:2]))
+
+
+# ---------------------------------------------------------------------------
+# D2
+
+def _dimension(fi, site, a):
+    """1 / 2: the dimensionality of the input under which `site` executes,
+    from the governing `len(a.shape) == 1` / `a.ndim == 1` test; else None."""
+    dims = (C('len(%s.shape)' % a), '%s.ndim' % a, C('np.ndim(%s)' % a))
+    for c in guard_atoms(fi, site) or []:
+        if not (isinstance(c, Cmp) and c.op in (ast.Eq, ast.NotEq)):
+            continue
+        l, r = fi.xu(c.lhs), fi.xu(c.rhs)
+        if r in dims:
+            l, r = r, l
+        if l in dims and r in ('1', '2'):
+            eq = c.op is ast.Eq
+            return int(r) if eq else 3 - int(r)
+    return None
+
+
+def _mask_parts(m):
+    """(difference expression, mask verdict) of the argument of where()."""
+    if isinstance(m, ast.Compare) and len(m.ops) == 1:
+        l, r = m.left, m.comparators[0]
+        if type(const_value(r)) is int and const_value(r) == 0:
+            return l, isinstance(m.ops[0], ast.NotEq)
+        if type(const_value(l)) is int and const_value(l) == 0:
+            return r, isinstance(m.ops[0], ast.NotEq)
+        if isinstance(m.ops[0], ast.NotEq):
+            return m, True              # a[1:] != a[:-1]
+        return m, False
+    return m, True                       # where(d): the non-zero entries themselves
 
 
 def d2_transitions(ck):
     rule = 'C20.D2.transitions'
+    F = 'transitions'
     mod = ck.repo.mod(DI)
-    fn = mod.func('transitions')
+    fn = mod.func(F)
     ck.analysed(mod, fn)
+    fi = finfo(mod, fn)
     a = params(fn)[0]
-    ds = [s for s in walk_local(fn) if isinstance(s, ast.Assign) and u(s.targets[0]) == 'd']
-    want = {'%s[1:] - %s[:-1]' % (a, a), '%s[:, 1:] - %s[:, :-1]' % (a, a)}
-    ck.check({u(s.value) for s in ds} == want, rule + '.difference', mod, ds[0] if ds else fn, 'transitions', '; '.join(u(s) for s in ds),
-             'first difference along the frame axis: frame n+1 minus frame n (slice lemma, L = 1)',
-             'the difference must pair frame n with n+1 along the FRAME axis: a[1:] - a[:-1] (1-D) and a[:, 1:] - a[:, :-1] (2-D)')
-    nz = [c for c in calls_in(fn) if call_name(c) in ('np.where', 'ra.where')]
-    ok = len(nz) == 2 and all(u(c.args[0]) == 'd != 0' for c in nz)
-    ck.check(ok, rule + '.nonzero', mod, nz[0] if nz else fn, 'transitions', '; '.join(u(c) for c in nz), 'a transition is a non-zero difference', 'transitions are the positions where d != 0')
-    one = [s for s in walk_local(fn) if isinstance(s, ast.Assign) and u(s.targets[0]) == 'tt' and 'np.where' in u(s.value)]
-    ck.check(len(one) == 1 and u(one[0].value) == 'np.where(d != 0)[0]', rule + '.nonzero', mod, one[0] if one else fn, 'transitions', u(one[0]) if one else '?', '1-D: frame indices', '1-D result must be np.where(d != 0)[0]')
-    bc = [c for c in calls_in(fn) if call_name(c) == 'np.bincount']
-    ok = len(bc) == 1 and u(bc[0].args[0]) == 'rows' and kwarg(bc[0], 'minlength') is not None and u(kwarg(bc[0], 'minlength')) in ('d.shape[0]', '%s.shape[0]' % a, 'len(d)', 'len(%s)' % a)
-    ck.check(ok, rule + '.per-row', mod, bc[0] if bc else fn, 'transitions', u(bc[0]) if bc else 'np.bincount',
-             'one length entry per input trajectory (minlength = number of rows)',
-             'np.bincount(rows) without minlength=<number of trajectories> is shorter than the input when the LAST rows have no '
-             'transition: trailing trajectories silently disappear from the result')
-    un = [s for s in walk_local(fn) if isinstance(s, ast.Assign) and u(s.targets[0]) == '(rows, columns)']
-    rr = [s for s in walk_local(fn) if isinstance(s, ast.Assign) and u(s.targets[0]) == 'tt' and 'RaggedArray' in u(s.value)]
-    ok = len(un) == 1 and len(rr) == 1 and u(rr[0].value) == 'ra.RaggedArray(columns, lengths=lengths)'
-    ck.check(ok, rule + '.per-row', mod, rr[0] if rr else fn, 'transitions', u(rr[0]) if rr else '?', 'frame indices (columns) grouped by trajectory (rows)',
-             'the ragged result must hold the COLUMN indices grouped by the row counts')
+    dforms = {
+        1: ['%s[1:] - %s[:-1]' % (a, a), '%s[:-1] - %s[1:]' % (a, a), 'np.diff(%s)' % a, 'np.diff(%s, axis=0)' % a,
+            '%s[1:] != %s[:-1]' % (a, a), '%s[:-1] != %s[1:]' % (a, a)],
+        2: ['%s[:, 1:] - %s[:, :-1]' % (a, a), '%s[:, :-1] - %s[:, 1:]' % (a, a), 'np.diff(%s)' % a, 'np.diff(%s, axis=1)' % a,
+            'np.diff(%s, axis=-1)' % a, '%s[:, 1:] != %s[:, :-1]' % (a, a), '%s[:, :-1] != %s[:, 1:]' % (a, a)],
+    }
+
+    # --- the result expressions and the branch they belong to
+    results = []
+    for r in returns_of(fn):
+        if r.value is None:
+            ck.missing(rule, 'bare return in transitions')
+            continue
+        if isinstance(r.value, ast.Name) and fi.temp_value(r.value) is None:
+            for d in fi.defs_of_use(r.value):
+                val = fi.def_value(d, r.value.id) if not isinstance(d, str) else None
+                if val is None:
+                    ck.missing(rule, 'definition of the returned `%s` not recognised' % r.value.id)
+                else:
+                    results.append((d, val))
+        else:
+            results.append((r, r.value))
+    seen = set()
+
+    def difference(site, m, dim):
+        """Decide the difference + mask inside where(m)."""
+        d, mask_ok = _mask_parts(m)
+        if isinstance(d, ast.Name):
+            # not a temporary: built in place?  d = a[1:]; d -= a[:-1]
+            src = [x for x in ast.walk(site) if isinstance(x, ast.Name) and x.id == d.id and isinstance(x.ctx, ast.Load)]
+            defs = fi.defs_of_use(src[0]) if src else set()
+            aug = next(iter(defs)) if len(defs) == 1 else None
+            if isinstance(aug, ast.AugAssign) and isinstance(aug.target, ast.Name):
+                prior = fi.rd.defs_at(aug, d.id)
+                p = next(iter(prior)) if len(prior) == 1 else None
+                pv = fi.def_value(p, d.id) if p is not None and not isinstance(p, str) else None
+                if pv is not None:
+                    pv = fi.expand(pv)
+                    if base_name(pv) == a and isinstance(pv, (ast.Subscript, ast.Name)):
+                        ck.bad(rule + '.difference', mod, aug, F, '%s; %s' % (u(p), u(aug)),
+                               'the difference is formed IN PLACE in a view of the caller\'s array (%s is %s): the input assignments are '
+                               'overwritten; it must be a fresh array %s' % (d.id, u(pv), dforms[dim][0]))
+                    d = ast.BinOp(left=pv, op=aug.op, right=fi.expand(aug.value))
+        v = classify(d, dforms[dim], scope={a})
+        ck.decide(v, rule + '.difference', mod, site, F, u(canon(d)),
+                  'first difference along the frame axis: frame n+1 against frame n (slice lemma, L = 1)',
+                  'the difference must pair frame n with n+1 along the FRAME axis: a[1:] - a[:-1] (1-D) and a[:, 1:] - a[:, :-1] (2-D)')
+        if v[0] == 'match':
+            ck.check(mask_ok, rule + '.nonzero', mod, site, F, u(canon(m)), 'a transition is a non-zero difference', 'transitions are the positions where d != 0')
+        return v[0] == 'match' and mask_ok
+
+    for site, e in results:
+        dim = _dimension(fi, site, a)
+        if dim is None:
+            ck.missing(rule, 'result `%s` at %s is not selected by a test of the input dimensionality' % (u(e)[:60], mod.loc(site)))
+            continue
+        seen.add(dim)
+        ex = _pos(fi.expand(e))
+        if dim == 1:
+            if isinstance(ex, ast.Subscript) and isinstance(ex.value, ast.Call) and call_name(ex.value) in ('np.where', 'np.nonzero') \
+                    and len(ex.value.args) == 1 and not ex.value.keywords:
+                ok0 = type(const_value(ex.slice)) is int and const_value(ex.slice) == 0
+                if difference(site, ex.value.args[0], 1):
+                    ck.check(ok0, rule + '.nonzero', mod, site, F, u(ex), '1-D: frame indices', '1-D result must be np.where(d != 0)[0]')
+            else:
+                v = classify(ex, ['np.where(%s != 0)[0]' % dforms[1][0]], scope={a})
+                ck.decide(v, rule + '.nonzero', mod, site, F, u(ex)[:200], '1-D: frame indices', '1-D result must be np.where(d != 0)[0]')
+            continue
+        # 2-D: ragged array of the column indices grouped by per-row counts
+        bnd = bind_args(ex, _SIGS['ra.RaggedArray']) if isinstance(ex, ast.Call) and call_name(ex) in ('ra.RaggedArray', 'RaggedArray') else None
+        if bnd is None or 'array' not in bnd or 'lengths' not in bnd:
+            v = classify(ex, ['ra.RaggedArray(_C, _L)'], scope={a})
+            if v[0] == 'match':
+                v = ('far', 0, None)
+            ck.decide(v, rule + '.per-row', mod, site, F, u(ex)[:200], '', 'the 2-D result must be ra.RaggedArray(<columns>, lengths=<transitions per row>)')
+            continue
+        cols, lens = bnd['array'], bnd['lengths']
+        src = [x for x in ast.walk(site) if isinstance(x, ast.Name) and isinstance(x.ctx, ast.Load)]
+
+        def origin(name_node):
+            """The tuple-unpacking `rows, columns = where(mask)` a name comes from."""
+            for x in src:
+                if isinstance(name_node, ast.Name) and x.id == name_node.id:
+                    ds = fi.defs_of_use(x)
+                    d = next(iter(ds)) if len(ds) == 1 else None
+                    if isinstance(d, ast.Assign) and len(d.targets) == 1 and isinstance(d.targets[0], ast.Tuple) and len(d.targets[0].elts) == 2 \
+                            and all(isinstance(t, ast.Name) for t in d.targets[0].elts) and isinstance(d.value, ast.Call) \
+                            and call_name(d.value) in ('ra.where', 'np.where', 'np.nonzero') and len(d.value.args) == 1 and not d.value.keywords:
+                        return d
+            return None
+        un = origin(cols)
+        if un is None:
+            # names hidden inside the expanded `lengths` keep their own use sites: look the unpacking up in the function
+            cands = [s for s in walk_local(fn) if isinstance(s, ast.Assign) and len(s.targets) == 1 and isinstance(s.targets[0], ast.Tuple)
+                     and isinstance(cols, ast.Name) and cols.id in target_names(s.targets[0]) and fi.cfg.dominates(s, site)]
+            ck.missing(rule + '.per-row', 'the array given to RaggedArray (%s) is not one half of `rows, columns = where(<mask>)`%s' % (
+                u(cols)[:60], '' if not cands else ' [%s]' % u(cands[0])[:80]))
+            continue
+        rows_n, cols_n = [t.id for t in un.targets[0].elts]
+        difference(un, fi.expand(un.value.args[0]), 2)
+        ck.check(cols.id == cols_n, rule + '.per-row', mod, site, F, u(ex)[:200], 'frame indices (columns) grouped by trajectory (rows)',
+                 'the ragged result must hold the COLUMN indices (second component of where) grouped by the row counts')
+        lb = bind_args(lens, _SIGS['np.bincount']) if isinstance(lens, ast.Call) and call_name(lens) == 'np.bincount' else None
+        if lb is None or 'x' not in lb or 'weights' in lb:
+            v = classify(lens, ['np.bincount(%s, minlength=%s.shape[0])' % (rows_n, a)], scope={a, rows_n, cols_n})
+            if v[0] == 'match':
+                v = ('far', 0, None)
+            ck.decide(v, rule + '.per-row', mod, site, F, u(lens)[:200], '', 'lengths must be the number of transitions of each row: np.bincount(rows, minlength=<rows>)')
+            continue
+        if fi.rd.defs_at(site, rows_n) != {un}:
+            ck.missing(rule + '.per-row', '`%s` is rebound between `%s` and its use' % (rows_n, u(un)[:80]))
+            continue
+        ck.check(isinstance(lb['x'], ast.Name) and lb['x'].id == rows_n, rule + '.per-row', mod, site, F, 'np.bincount(%s, ...)' % u(lb['x']),
+                 'transitions are counted per trajectory (row index)', 'the counts must be taken over the ROW indices (first component of where)')
+        if 'minlength' not in lb:
+            ck.bad(rule + '.per-row', mod, site, F, u(lens),
+                   'np.bincount(rows) without minlength=<number of trajectories> is shorter than the input when the LAST rows have no '
+                   'transition: trailing trajectories silently disappear from the result')
+            continue
+        nrows = ['%s.shape[0]' % a, 'len(%s)' % a] + ['(%s).shape[0]' % d for d in dforms[2]] + ['len(%s)' % d for d in dforms[2]]
+        v = classify(lb['minlength'], nrows, scope={a})
+        ck.decide(v, rule + '.per-row', mod, site, F, u(lens)[:200], 'one length entry per input trajectory (minlength = number of rows)',
+                  'minlength must be the number of trajectories (rows of the input)')
+    for dim in (1, 2):
+        if dim not in seen:
+            ck.missing(rule, 'no result recognised for %d-D input' % dim)
 
 
 def check(ck):
     mod = ck.repo.mod(RO)
     d1_carried_state(ck, mod)
     d3_gates(ck, mod)
+    d3_exit_test(ck, mod)
     d2_transitions(ck)
     check_no_arg_mutation(ck, 'C20.D4.inputs-unmodified', [(RO, '_rotamers'), (RO, 'get_gates'), (RO, 'is_buffered_transition'), (DI, 'transitions')])
     return EXPLANATION
